@@ -9,7 +9,7 @@
 (* sentinel (a valid input decoded again after every adversarial input)    *)
 (* must not change.                                                        *)
 (***************************************************************************)
-EXTENDS Bits, TLC, TLCExt, Json, IOUtils
+EXTENDS Asn1Value, TLC, TLCExt, Json, IOUtils
 
 Tr == ndJsonDeserialize(IOEnv.TRACE_FILE)
 VARIABLE i
@@ -22,14 +22,39 @@ WorkBound(n, d) == 5000 + (EventsPerStep * ((2 * n) + 2) * (d + 1))
 \* peak memory allowed while decoding n octets: a constant plus a multiple of the input length
 MemBound(n, d) == 1000000 + (4096 * n * (d + 1))
 
+\* input class of a known finding: a SEQUENCE OF / SET OF whose element can have an EMPTY encoding
+\* (NULL, single-value INTEGER, empty SEQUENCE, zero-size strings): the element count read from the
+\* input is then not bounded by the remaining input
+RECURSIVE ZeroWidth(_, _, _), HasZeroWidthList(_, _, _)
+ZeroWidth(env, T, fuel) ==
+  CASE T.k = "REF" -> fuel > 0 /\ ZeroWidth(env, env.types[T.name], fuel - 1)
+    [] T.k = "NULL" -> TRUE
+    [] T.k = "INT" -> T.con.f = "R" /\ ~T.con.ext /\ ~T.con.lbinf /\ ~T.con.ubinf /\ Eq(T.con.lb, T.con.ub)
+    [] T.k \in {"OCTS", "BITS", "STR"} -> T.sz.f = "R" /\ ~T.sz.ext /\ ~T.sz.ubinf /\ T.sz.ub = 0
+    [] T.k \in {"SEQ", "SET"} ->
+         /\ ~T.ext
+         /\ \A j \in 1..Len(T.root) : T.root[j].q = "M" /\ ZeroWidth(env, T.root[j].t, fuel)
+    [] T.k = "ENUM" -> ~T.ext /\ Len(T.root) = 1
+    [] OTHER -> FALSE
+HasZeroWidthList(env, T, fuel) ==
+  CASE T.k = "REF" -> fuel > 0 /\ HasZeroWidthList(env, env.types[T.name], fuel - 1)
+    [] T.k \in {"SEQOF", "SETOF"} -> ZeroWidth(env, T.e, fuel) \/ HasZeroWidthList(env, T.e, fuel)
+    [] T.k \in {"SEQ", "SET"} -> \E j \in 1..Len(AllMembers(T)) : HasZeroWidthList(env, AllMembers(T)[j].t, fuel)
+    [] T.k = "CHOICE" -> \E j \in 1..Len(AllAlts(T)) : HasZeroWidthList(env, AllAlts(T)[j].t, fuel)
+    [] OTHER -> FALSE
+
+Applicable(L) ==
+  IF L.codec \in {"per", "uper", "oer"} /\ HasZeroWidthList(L.env, L.env.types[L.top], 3)
+  THEN " applicable:{\"ZeroWidthElementList\"}" ELSE " applicable:{}"
+
 V(k, verdict, detail) == [vi |-> k, codec |-> "", ne |-> FALSE, check |-> "FUZZ", verdict |-> verdict, detail |-> detail]
 
 ObsVerdict(L, k) ==
   LET o == L.obs[k] IN
-  IF o.st = "budget" THEN V(k, "reject", "dec-budget@" \o o.site)
-  ELSE IF o.st = "timeout" THEN V(k, "reject", "dec-timeout@" \o o.site)
-  ELSE IF o.ev > WorkBound(o.n, L.depth) THEN V(k, "reject", "dec-work@" \o o.site)
-  ELSE IF o.mem > MemBound(o.n, L.depth) THEN V(k, "reject", "dec-memory:" \o o.cls \o "@" \o o.site)
+  IF o.mem > MemBound(o.n, L.depth) THEN V(k, "reject", "dec-memory:" \o o.cls \o "@" \o o.site \o " applicable:{}")
+  ELSE IF o.st = "budget" THEN V(k, "reject", "dec-budget@" \o o.site \o Applicable(L))
+  ELSE IF o.st = "timeout" THEN V(k, "reject", "dec-timeout@" \o o.site \o Applicable(L))
+  ELSE IF o.ev > WorkBound(o.n, L.depth) THEN V(k, "reject", "dec-work@" \o o.site \o Applicable(L))
   ELSE V(k, "ok", "")
 
 LineReport(L) ==
